@@ -1,6 +1,6 @@
 """Property -> rules."""
 from .prog import Program
-from . import rules_cg, lalr, rules_dispatch, rules_wrap, rules_mem
+from . import rules_cg, lalr, rules_dispatch, rules_wrap, rules_mem, rules_state
 
 _progs = {}
 
@@ -21,6 +21,9 @@ def c02(chk, tier):
 def c05(chk, tier):
     chk.explanation = "Static: R-GLOBAL inventory of process-global mutable state and stateful libc calls in the conversion cone."
     rules_cg.r_global(P(), chk, "C05")
+    rules_state.r_reset(P(), chk)
+    rules_mem.r_init(P(), chk)
+    rules_state.r_srcconst(P(), chk)
 
 
 def c17(chk, tier):
@@ -44,6 +47,7 @@ def c01(chk, tier):
     chk.explanation = "Static: R-ARRAY (interval analysis of every fixed-array index/copy), R-TYPEWRITE."
     rules_mem.r_array(P(), chk)
     rules_mem.r_lookbehind(P(), chk)
+    rules_mem.r_init(P(), chk)
 
 
 PROPS = {
